@@ -534,12 +534,7 @@ func (g *gen) qualifyImport(name, path string) string {
 	if path == g.pkg.PkgPath {
 		return ""
 	}
-	// TODO(light): This is depending on details of the current loader.
-	const vendorPart = "vendor/"
-	unvendored := path
-	if i := strings.LastIndex(path, vendorPart); i != -1 && (i == 0 || path[i-1] == '/') {
-		unvendored = path[i+len(vendorPart):]
-	}
+	unvendored := unvendor(path)
 	if info, ok := g.imports[unvendored]; ok {
 		return info.name
 	}
